@@ -19,6 +19,11 @@ CHECKS = {
     "C06": {"parts": [P("convergence", "./gossip", "^TestC06Convergence$", budget={"quick": 240, "thorough": 1500}),
                       P("malformed", "./gossip", "^TestC06Malformed$"), P("invalidation", "./gossip", "^TestC06Invalidates$"), P("queued-gossip", "./gossip", "^TestC06Queue$")]},
     "C05": {"parts": [P("merge-bfs", "./c05", "^TestC05$")]},
+    "C07": {"parts": [P("cas-atomicity", "./c07", "^TestC07$", shards={"quick": 16, "thorough": 16}, budget={"quick": 200, "thorough": 1200}, gomaxprocs=1,
+                      overlay=[{"file": "kv/consul/mock.go", "rewrite": ['"sync"']},
+                               {"file": "kv/etcd/mock.go", "rewrite": ['"sync"']},
+                               {"file": "kv/memberlist/memberlist_client.go", "rewrite": ['"sync"', '"go.uber.org/atomic"']},
+                               {"file": "kv/multi.go", "rewrite": ['"sync"', '"go.uber.org/atomic"']}])]},
     "C10": {"parts": [P("dobatch", "./c10", "^TestC10$", shards={"quick": 16, "thorough": 16}, budget={"quick": 200, "thorough": 1200}, gomaxprocs=1,
                       overlay=[{"file": "ring/batch.go", "rewrite": ['"sync"', '"go.uber.org/atomic"']}])]},
     "C17": {"parts": [P("single-service", "./c17", "^TestC17Single$", shards={"quick": 8, "thorough": 8}, budget={"quick": 200, "thorough": 1200}, gomaxprocs=1, overlay=SVC_OV),
